@@ -243,6 +243,17 @@ func init() {
 				}
 			}
 			segUseChecksum = nil
+			// checksummed replies of 32 consecutive sizes (the checksum ends in every position of a cipher block) for a client
+			// that does not send checksums itself: what the client accepts does not depend on its own option
+			segUseChecksum = false
+			for extra := 0; extra < 32; extra++ {
+				pl := plainFrame([]rscp.Message{{Tag: rscp.INFO_SERIAL_NUMBER, DataType: rscp.CString, Value: strings.Repeat("s", 20+extra)}}, true, g.time())
+				base := ""
+				segCase(cw, 2049, pl, nil, fmt.Sprintf("frame client-without-checksums size=%d one-piece", len(pl)), &base)
+				segCase(cw, 1, pl, nil, fmt.Sprintf("frame client-without-checksums size=%d buffer=1", len(pl)), &base)
+				segCase(cw, 3, pl, []int{32}, fmt.Sprintf("frame client-without-checksums size=%d 32+rest", len(pl)), &base)
+			}
+			segUseChecksum = nil
 		}
 		// a reply longer than 2050 reads when it trickles in byte by byte
 		{
